@@ -196,6 +196,14 @@ fn set_fsize_limit(limit: Option<u64>) {
 
 fn run_case(case: &Case) -> Verdict {
     let _ = std::fs::remove_dir_all(ROOT);
+    if Path::new(ROOT).exists() {
+        // could not be removed (e.g. over-long paths): move it out of the way so that this run starts clean
+        for n in 0..1000 {
+            if std::fs::rename(ROOT, format!(".trash{}", n)).is_ok() {
+                break;
+            }
+        }
+    }
     if std::fs::create_dir_all(ROOT).is_err() {
         return Verdict::Inconclusive { reason: "cannot create the run directory".to_string() };
     }
@@ -325,8 +333,12 @@ fn run_case(case: &Case) -> Verdict {
                 }
             }
             Op::Touch(p) => {
-                let is_blocked = blocked(&t, p) || matches!(t.get(p), Some(Node::Dir));
-                if is_blocked {
+                if matches!(t.get(p), Some(Node::Dir)) && !blocked(&t, p) {
+                    // "true if the file exists after the command": for an existing directory the help does not
+                    // settle the answer; nothing may change
+                    world.op("touch", &[p.clone()], &Want::Any, &[p.clone()]);
+                    sim::with_core(|c| c.probe("touch-on-directory"));
+                } else if blocked(&t, p) {
                     world.op("touch", &[p.clone()], &Want::Fail, &[p.clone()]);
                     sim::with_core(|c| *c.fired.entry("F8".to_string()).or_insert(0) += 1);
                 } else {
@@ -599,6 +611,16 @@ fn gen_any(rng: &mut Rng) -> String {
 }
 
 fn gen_op(rng: &mut Rng) -> Op {
+    let op = gen_op_raw(rng);
+    match &op {
+        // a directory copied or moved into itself (or the run directory as a source) is pathological and outside
+        // the statement's domain twice over (directory sources): not generated
+        Op::Cp(src, dst) | Op::Mv(src, dst) if src == ROOT || dst.starts_with(&format!("{}/", src)) => Op::Exists(src.clone()),
+        _ => op,
+    }
+}
+
+fn gen_op_raw(rng: &mut Rng) -> Op {
     match rng.below(40) {
         0..=5 => Op::Write(if rng.chance(1, 10) { gen_any(rng) } else { gen_file(rng) }, rng.pick(&TEXTS).to_string()),
         6..=8 => Op::Append(if rng.chance(1, 10) { gen_any(rng) } else { gen_file(rng) }, rng.pick(&TEXTS).to_string()),
